@@ -809,7 +809,7 @@ func describe(f Finding) string {
 		var l CaseLine
 		json.Unmarshal(f.Line, &l)
 		ob, _ := json.Marshal(l.Obs)
-		return fmt.Sprintf("monitor %s failed: %s on the %s stack with write operations %s (template %s, spelling %v) observed %s",
+		return fmt.Sprintf("monitor %s failed: %s on the %s stack with write operations %s (template %s, spelling %v; the instances had served other cases before) observed %s",
 			f.Monitor, rq(l.Req), l.Stack, onOff(l.W), l.T, l.Sps, ob)
 	}
 }
@@ -867,17 +867,30 @@ func Check(c *core.Ctx) int {
 				fmt.Printf("DRIFT property=%s (observed response is not one the code-shaped spec allows) %s\n", c.Prop, dl)
 			}
 		}
+		summary := map[string]int{}
+		perGroup := map[string]int{}
 		for _, f := range out.Findings {
 			if kf := matchKnown(known, f); kf != nil {
 				knownHits[kf.ID]++
 				continue
 			}
 			violations++
-			if reported < 6 {
+			var hd struct {
+				Stack string `json:"stack"`
+			}
+			json.Unmarshal(f.Line, &hd)
+			grp := f.Kind + "/" + hd.Stack + "/" + f.Monitor
+			summary[grp]++
+			// show every kind of failure: at most 2 per (line kind, stack, monitor), 10 in all
+			if perGroup[grp] < 2 && reported < 10 {
+				perGroup[grp]++
 				path := c.WriteReplay(fmt.Sprintf("u%d-%d", ui, reported), ReplayFile{Prop: c.Prop, Seed: c.Seed, Reps: p.reps, ConcMs: p.concDur.Milliseconds(), Universe: u, Finding: f})
 				c.Violation(path, describe(f))
 				reported++
 			}
+		}
+		if len(summary) > 0 {
+			c.Logf("universe %d: failed monitors by line kind/stack/monitor: %v", ui, summary)
 		}
 	}
 	for _, kf := range known {
